@@ -57,8 +57,10 @@ def run_demo(src_dir, tree):
     return rc, out[-600:]
 
 
-def run_check(tree, prop, tier):
+def run_check(tree, prop, tier, scale=None):
     env = dict(os.environ, VERIF_REPO=tree, VERIF_BUILD_ROOT=os.path.join(tree, "_build"))
+    if scale:
+        env["VERIF_RUNS_SCALE"] = str(scale)
     t0 = time.time()
     rc, out = sh([sys.executable, os.path.join(VERIF, "sim", "run.py"), "check", prop, "--tier", tier], cwd=VERIF, env=env, timeout=7200)
     keys = [l.strip() for l in out.split("\n") if l.strip().startswith("key=")]
@@ -88,6 +90,8 @@ def verify(src, prop, name, also, tier):
             meta["status"] = "not-confirmed"
             return meta
         meta["checks"] = {}
+        meta["tier"] = tier
+        meta["runs_scale"] = os.environ.get("VERIF_RUNS_SCALE")
         for p in [prop] + [a for a in also if a]:
             meta["checks"][p] = run_check(d, p, tier)
         meta["detected_by_own_check"] = meta["checks"][prop]["exit"] == 1
@@ -120,7 +124,7 @@ def rerun(names, tier):
             if rc != 0:
                 print(name, "patch no longer applies"); continue
             for p in list(meta.get("checks", {meta["property"]: None})):
-                meta.setdefault("checks", {})[p] = run_check(d, p, tier)
+                meta.setdefault("checks", {})[p] = run_check(d, p, meta.get("tier", tier), meta.get("runs_scale"))
             meta["detected_by_own_check"] = meta["checks"][meta["property"]]["exit"] == 1
             json.dump(meta, open(mp, "w"), indent=1)
             print(name, {p: v["exit"] for p, v in meta["checks"].items()}, meta["checks"][meta["property"]]["keys"][:1])
